@@ -56,9 +56,27 @@ def gen_fanout_case(rng, n_samples=1):
     return Case(mb, info, cmds=cmds, data=data, desc=[(c["regex"], "*") for c in cmds])
 
 
+def gen_per_op_modes_case(rng, n_samples=1, nsg=None):
+    """every operator gets its own mode (none / weight only / dynamic range / static range / float16) by a rule on its own scope: operators
+    are inserted at many positions, in different numbers per subgraph"""
+    mb, info = gm.gen_model(rng, n_ops=rng.randint(3, 7), n_subgraphs=nsg or rng.choice([1, 2, 3]), kinds=gm.WEIGHT_HEAVY, alias_sig=0.0)
+    data = gm.random_inputs(mb, rng, n=n_samples)
+    cmds = []
+    for sc in pl.scopes_of(mb):
+        if rng.random() < 0.25 or not sc:
+            continue
+        cfg = rng.choice([pl.UNIFORM["wo8"], pl.UNIFORM["wo4"], pl.UNIFORM["drq8"], pl.UNIFORM["a8w8"], pl.UNIFORM["a16w8"], pl.FP16])
+        cmds.append({"k": "add", "regex": "^" + re.escape(sc) + "$", "operation": "FULLY_CONNECTED" if cfg is pl.FP16 else "*", "cfg": cfg,
+                     "alg": "float_casting" if cfg is pl.FP16 else "min_max_uniform_quantize"})
+    info["tags"].add("per_operator_modes")
+    return Case(mb, info, cmds=cmds, data=data, desc=[(c["regex"], c["alg"], c["cfg"]["cp"]) for c in cmds])
+
+
 def gen_case(rng, i, multi_every=6, share_every=4, shipped_every=3, n_samples=1, **kw):
     if i % 9 == 4:
         return gen_fanout_case(rng, n_samples)
+    if i % 13 == 11 and not kw:
+        return gen_per_op_modes_case(rng, n_samples)
     kw = dict(kw)
     kw.setdefault("dup_output", 0.08)
     kw.setdefault("dynamic_batch", 0.15)
